@@ -6,6 +6,15 @@ import os
 V = os.path.dirname(os.path.dirname(os.path.abspath(__file__)))
 
 CHECKS = {
+    "C10": dict(
+        technique="stateless exhaustive exploration of all operation histories up to a depth on the real objects (replay from the empty history) + explicit-state BFS with exact state hashing to the fixpoint; oracle = uncached twin rebuilt from state_dict after every observing step",
+        text="All histories over a 12-letter (thorough: 14) operation alphabet up to depth 4 (thorough: 5, and 6 on a 9-letter alphabet) are executed on "
+        "fresh real LU/QR/SVD/Naive/1x1-conv transforms (bare and nested in a CompositeTransform, cache initially on/off); after every forward / "
+        "inverse / forward+backward the results are compared with an uncached twin; an operation the twin supports must not raise. A BFS over the "
+        "exact concrete state (mode, flag, dtype, parameter values, cache slots) runs to its fixpoint, so arbitrarily long histories over that alphabet are covered.",
+        note="three parameter vectors + in-place nudges; tolerance 1e-4*scale (float32) / 1e-10*scale (float64); BFS hash reads the private cache slots",
+        ref="DESIGN.md 4/C10",
+    ),
     "C20": dict(
         technique="bounded-exhaustive enumeration of shapes/arguments (product explorer) against pure-Python reference models",
         text="Every exported helper is executed on the complete product of a small shape/argument alphabet (all shapes with <=3 dims "
